@@ -5,7 +5,311 @@ use crate::explore::*;
 use crate::gen::{self, Case, Dial};
 use std::collections::HashMap;
 
-pub fn check_output_more(_t: &TaskCtx, _out: &str, _oi: &Info, _st: &mut Stats, _f: &mut Vec<(String, String)>) {}
+/// find `needles` in `hay` in order; returns the index of the first needle that cannot be found
+fn find_in_order(hay: &str, needles: &[&str]) -> Option<usize> {
+    let mut from = 0;
+    for (i, n) in needles.iter().enumerate() {
+        match hay[from..].find(n) {
+            Some(p) => from += p + n.len(),
+            None => return Some(i),
+        }
+    }
+    None
+}
+
+pub fn check_output_more(t: &TaskCtx, out: &str, oi: &Info, st: &mut Stats, f: &mut Vec<(String, String)>) {
+    if t.oracles & O_IGN != 0 {
+        c08_oracle(t, out, st, f);
+    }
+    if t.oracles & O_RANGE != 0 && t.range.is_some() {
+        c09_oracle(t, out, oi, st, f);
+    }
+    if t.oracles & O_SORT != 0 {
+        c12_oracle(t, oi, st, f);
+    }
+}
+
+// ---------------------------------------------------------------------------------------------------- C08
+fn c08_oracle(t: &TaskCtx, out: &str, st: &mut Stats, f: &mut Vec<(String, String)>) {
+    let text = &t.case.text;
+    if !t.case.meta.ignored.is_empty() {
+        *st.oracle_evals.entry("ignored-verbatim").or_insert(0) += 1;
+        let needles: Vec<&str> = t.case.meta.ignored.iter().map(|(a, b)| &text[*a..*b]).collect();
+        if let Some(i) = find_in_order(out, &needles) {
+            f.push(("ignored-changed".into(), format!("ignored node {:?} does not occur verbatim (in order) in the output", needles[i])));
+        }
+    }
+    // "everything else is still formatted": every line of each non-ignored statement formatted on its own must occur
+    // (modulo indentation) in the output, in order. Judged at the wide representative only (no wrapping interplay).
+    if t.is_wide.get() && !t.case.meta.others.is_empty() {
+        *st.oracle_evals.entry("others-formatted").or_insert(0) += 1;
+        // (a `;` may be added or removed depending on the neighbouring statement: not part of this comparison)
+        let norm = |l: &str| l.trim().replace(" ;", "").replace(';', "");
+        let out_lines: Vec<String> = out.lines().map(norm).collect();
+        let mut from = 0;
+        for o in &t.case.meta.others {
+            let (fo, _) = run_format(&format!("{}\n", o), t.cfg, usize::MAX - 1, None);
+            if let Out::Ok(ft) = fo {
+                for l in ft.lines().map(norm).filter(|l| !l.is_empty()) {
+                    match out_lines[from..].iter().position(|x| *x == l) {
+                        Some(p) => from += p + 1,
+                        None => {
+                            f.push(("not-formatted".into(), format!("statement {:?} next to an ignored one is not formatted (expected line {:?})", o, l)));
+                            return;
+                        }
+                    }
+                }
+            }
+        }
+    }
+}
+
+// ---------------------------------------------------------------------------------------------------- C12
+fn stmt_slices(nf: &str, starts: &[usize]) -> Vec<String> {
+    let mut v = vec![];
+    for (i, s) in starts.iter().enumerate() {
+        let e = if i + 1 < starts.len() { starts[i + 1] } else { nf.len() };
+        // the last slice carries the closing events of the chunk; cut at the matching close of the statement
+        let sl = &nf[*s..e];
+        v.push(cut_balanced(sl).to_string());
+    }
+    v
+}
+fn cut_balanced(sl: &str) -> &str {
+    // events are separated by \x01; the slice starts with "<Stmt" or "<Last": cut after its matching ">"
+    let mut depth = 0i32;
+    let mut pos = 0;
+    for ev in sl.split('\x01') {
+        let l = ev.len() + 1;
+        if ev.starts_with('<') {
+            depth += 1;
+        } else if ev == ">" {
+            depth -= 1;
+            if depth == 0 {
+                return &sl[..(pos + l).min(sl.len())];
+            }
+        }
+        pos += l;
+    }
+    sl
+}
+
+fn c12_oracle(t: &TaskCtx, oi: &Info, st: &mut Stats, f: &mut Vec<(String, String)>) {
+    use gen::{ReqKind, Sep};
+    let items = &t.case.meta.req;
+    if items.is_empty() {
+        return;
+    }
+    *st.oracle_evals.entry("require-order").or_insert(0) += 1;
+    let inp = stmt_slices(&t.input.nf, &t.input.stmt_starts);
+    let outp = stmt_slices(&oi.nf, &oi.stmt_starts);
+    if inp.len() != items.len() {
+        *st.machinery.entry("F-REQ: generator statement count != parser statement count (case skipped)".into()).or_insert(0) += 1;
+        return;
+    }
+    if !t.cfg.sort {
+        if inp != outp {
+            f.push(("order-changed-with-sorting-off".into(), "statement order / content changed although sort_requires is off".into()));
+        }
+        return;
+    }
+    let mut a = inp.clone();
+    let mut b = outp.clone();
+    a.sort();
+    b.sort();
+    if a != b {
+        f.push(("not-a-permutation".into(), "the output statements are not a permutation of the input statements".into()));
+        return;
+    }
+    // maximal runs: consecutive require-kind statements of one kind with no blank line / other statement between
+    let n = items.len();
+    let mut i = 0;
+    while i < n {
+        if items[i].kind == ReqKind::Other {
+            if outp[i] != inp[i] {
+                f.push(("non-require-moved".into(), format!("statement {} is not a require and must keep its place", i)));
+                return;
+            }
+            i += 1;
+            continue;
+        }
+        let mut j = i + 1;
+        while j < n && items[j].kind == items[i].kind && items[j].sep_before != Sep::Blank {
+            j += 1;
+        }
+        // run = i..j
+        let mut x: Vec<&String> = inp[i..j].iter().collect();
+        let mut y: Vec<&String> = outp[i..j].iter().collect();
+        x.sort();
+        y.sort();
+        if x != y {
+            f.push(("moved-across-groups".into(), format!("statements {}..{} form one require block; its members left it or others entered", i, j)));
+            return;
+        }
+        // acceptable results: comment lines split the block (A) or do not (B)
+        let sorted = |lo: usize, hi: usize| -> Vec<String> {
+            if items[lo..hi].iter().any(|it| it.ignored) {
+                return inp[lo..hi].to_vec();
+            }
+            let mut idx: Vec<usize> = (lo..hi).collect();
+            idx.sort_by(|p, q| items[*p].name.as_bytes().cmp(items[*q].name.as_bytes()));
+            idx.into_iter().map(|k| inp[k].clone()).collect()
+        };
+        let b_res = sorted(i, j);
+        let mut a_res: Vec<String> = vec![];
+        let mut lo = i;
+        for k in (i + 1)..=j {
+            if k == j || items[k].sep_before == Sep::Comment {
+                a_res.extend(sorted(lo, k));
+                lo = k;
+            }
+        }
+        let got = &outp[i..j];
+        if got != a_res.as_slice() && got != b_res.as_slice() {
+            f.push((
+                "group-not-sorted".into(),
+                format!("require block {}..{} is neither sorted by name (stable) nor left alone as the rule demands", i, j),
+            ));
+            return;
+        }
+        i = j;
+    }
+}
+
+// ---------------------------------------------------------------------------------------------------- C09
+use full_moon::node::Node;
+struct StmtSpans {
+    /// (start of first token, end of last token, end including `;`, depth)
+    v: Vec<(usize, usize, usize, usize)>,
+    depth: usize,
+}
+impl full_moon::visitors::Visitor for StmtSpans {
+    fn visit_block(&mut self, b: &full_moon::ast::Block) {
+        self.depth += 1;
+        for (s, semi) in b.stmts_with_semicolon() {
+            if let (Some(a), Some(e)) = (s.start_position(), s.end_position()) {
+                let e2 = semi.as_ref().and_then(|x| x.token().end_position().bytes().into()).unwrap_or(e.bytes());
+                self.v.push((a.bytes(), e.bytes(), e2.max(e.bytes()), self.depth));
+            }
+        }
+        if let Some((s, semi)) = b.last_stmt_with_semicolon() {
+            if let (Some(a), Some(e)) = (s.start_position(), s.end_position()) {
+                let e2 = semi.as_ref().map(|x| x.token().end_position().bytes()).unwrap_or(e.bytes());
+                self.v.push((a.bytes(), e.bytes(), e2.max(e.bytes()), self.depth));
+            }
+        }
+    }
+    fn visit_block_end(&mut self, _b: &full_moon::ast::Block) {
+        self.depth -= 1;
+    }
+}
+
+fn stmt_spans(ast: &full_moon::ast::Ast) -> Vec<(usize, usize, usize, usize)> {
+    use full_moon::visitors::Visitor;
+    let mut s = StmtSpans { v: vec![], depth: 0 };
+    s.visit_ast(ast);
+    s.v
+}
+
+fn c09_oracle(t: &TaskCtx, out: &str, oi: &Info, st: &mut Stats, f: &mut Vec<(String, String)>) {
+    let text = &t.case.text;
+    let (rs, re) = t.range.unwrap();
+    let s = rs.unwrap_or(0);
+    let e = re.unwrap_or(usize::MAX);
+    let (Some(ast), Some(lexed)) = (&t.input.ast, &t.input.lexed) else { return };
+    let spans = stmt_spans(ast);
+    // the code's rule: inside iff first token starts at or after s and last token ends at or before e;
+    // a statement whose last byte is exactly e (end == e+1) is accepted either way
+    let inside = |a: usize, b: usize| a >= s && b <= e;
+    let ambiguous = |a: usize, b: usize| a >= s && e != usize::MAX && b == e + 1;
+    let covered: Vec<(usize, usize)> = spans.iter().filter(|(a, b, _, _)| inside(*a, *b) || ambiguous(*a, *b)).map(|(a, _, b2, _)| (*a, *b2)).collect();
+    *st.oracle_evals.entry("range-outside-preserved").or_insert(0) += 1;
+    // items (code tokens and comments) in source order
+    let mut items: Vec<(usize, usize, bool)> = lexed.toks.iter().map(|(_, a, b)| (*a, *b, false)).collect();
+    items.extend(lexed.comments.iter().map(|(_, a, b)| (*a, *b, true)));
+    items.sort();
+    let is_cov = |a: usize, b: usize| covered.iter().any(|(ca, cb)| a >= *ca && b <= *cb);
+    // maximal runs of uncovered items; comments at the edges of a run may be trivia of a covered statement: drop them
+    let mut pieces: Vec<(usize, usize)> = vec![];
+    let mut run: Vec<(usize, usize, bool)> = vec![];
+    let flush = |run: &mut Vec<(usize, usize, bool)>, pieces: &mut Vec<(usize, usize)>, at_start: bool, at_end: bool| {
+        let mut lo = 0;
+        let mut hi = run.len();
+        if !at_start {
+            while lo < hi && run[lo].2 {
+                lo += 1;
+            }
+        }
+        if !at_end {
+            while hi > lo && run[hi - 1].2 {
+                hi -= 1;
+            }
+        }
+        if lo < hi {
+            pieces.push((run[lo].0, run[hi - 1].1));
+        }
+        run.clear();
+    };
+    let mut seen_cov = false;
+    for (a, b, c) in &items {
+        if is_cov(*a, *b) {
+            let first = !seen_cov;
+            flush(&mut run, &mut pieces, first, false);
+            seen_cov = true;
+        } else {
+            run.push((*a, *b, *c));
+        }
+    }
+    // trailing comments before EOF belong to the EOF token, which may itself be in range: drop them as well
+    let first = !seen_cov;
+    flush(&mut run, &mut pieces, first, false);
+    let needles: Vec<&str> = pieces.iter().map(|(a, b)| &text[*a..*b]).collect();
+    if let Some(i) = find_in_order(out, &needles) {
+        f.push((
+            "outside-range-changed".into(),
+            format!("text outside the range was changed: {:?} no longer occurs", needles[i].chars().take(80).collect::<String>()),
+        ));
+        return;
+    }
+    // if nothing at all is covered the prefix up to the last code token must be byte-identical
+    if covered.is_empty() {
+        if let Some((_, _, b)) = lexed.toks.last() {
+            if !out.starts_with(&text[..*b]) {
+                f.push(("outside-range-changed".into(), "no statement lies inside the range, yet the text before the last token changed".into()));
+                return;
+            }
+        }
+    }
+    // statements wholly inside come out exactly as when the whole file is formatted (top-level statements only)
+    let top_in: Vec<usize> = spans.iter().filter(|x| x.3 == 1).enumerate().filter(|(_, x)| inside(x.0, x.1)).map(|(i, _)| i).collect();
+    if top_in.is_empty() || t.cfg.sort {
+        // (with require sorting the whole-file run may reorder statements: no index-wise comparison then)
+        return;
+    }
+    let (whole, _) = run_format(text, t.cfg, t.cur_width.get(), None);
+    let Out::Ok(whole) = whole else { return };
+    let wi = analyse(&whole, t.cfg.syn, true);
+    let (Some(wast), Some(oast)) = (&wi.ast, &oi.ast) else { return };
+    let ws: Vec<_> = stmt_spans(wast).into_iter().filter(|x| x.3 == 1).collect();
+    let os: Vec<_> = stmt_spans(oast).into_iter().filter(|x| x.3 == 1).collect();
+    let n_top = spans.iter().filter(|x| x.3 == 1).count();
+    if ws.len() != n_top || os.len() != n_top {
+        return; // statement structure changed: C02's business
+    }
+    *st.oracle_evals.entry("range-inside-as-whole-file").or_insert(0) += 1;
+    for i in top_in {
+        let a = &whole[ws[i].0..ws[i].2];
+        let b = &out[os[i].0..os[i].2];
+        if a != b {
+            // a statement that needs its `;` only because of its (unformatted) neighbour may differ in that `;`
+            if a.trim_end_matches(';') == b.trim_end_matches(';') {
+                continue;
+            }
+            f.push(("inside-range-differs".into(), format!("statement inside the range is formatted differently from the whole-file run: {:?} vs {:?}", b, a)));
+            return;
+        }
+    }
+}
 
 pub fn check_range_task(
     _t: &TaskCtx,
@@ -261,6 +565,59 @@ pub fn plans_for(prop: &str, thorough: bool) -> Vec<Plan> {
                 widths: Widths::Classes,
                 ranges: Ranges::None,
                 oracles: O_LIT,
+                u_cap: 400,
+            });
+        }
+        "C08" => {
+            plans.push(Plan {
+                name: "F-IGN (directive before every statement kind / regions / table fields) x collapse x line endings x all widths",
+                cases: gen::f_ign(thorough),
+                cfgs: cross(thorough, |b| {
+                    let mut v = vec![b, Cfg { cs: 3, ..b }, Cfg { le: 1, ..b }, Cfg { sort: true, ..b }, Cfg { it: 1, iw: 2, ..b }];
+                    v.push(Cfg { cp: 3, ..b });
+                    v
+                }),
+                widths: Widths::All,
+                ranges: Ranges::None,
+                oracles: O_IGN,
+                u_cap: 400,
+            });
+        }
+        "C09" => {
+            let mut cases = gen::f_seq(if thorough { 3 } else { 2 }, false);
+            if !thorough {
+                // every third program keeps the quick tier small; the thorough tier takes them all
+                cases = cases.into_iter().enumerate().filter(|(i, _)| i % 97 == 0).map(|(_, c)| c).collect();
+            }
+            cases.extend(only_dials(stmt.clone(), &[Dial::Core]).into_iter().filter(|c| c.text.contains("end") || c.text.contains('{') || c.text.contains(';')));
+            plans.push(Plan {
+                name: "F-SEQ + block statements x every pair of range points x width classes",
+                cases,
+                cfgs: cross(false, |b| vec![b, Cfg { cs: 3, ..b }]),
+                widths: Widths::Classes,
+                ranges: Ranges::TokenPoints,
+                oracles: O_RANGE,
+                u_cap: 400,
+            });
+            plans.push(Plan {
+                name: "F-REQ with sort_requires on x every pair of range points",
+                cases: gen::f_req(if thorough { 3 } else { 2 }, false).into_iter().filter(|c| !c.text.contains("stylua")).collect(),
+                cfgs: cross(false, |b| vec![Cfg { sort: true, ..b }]),
+                widths: Widths::Wide,
+                ranges: Ranges::TokenPoints,
+                oracles: O_RANGE,
+                u_cap: 400,
+            });
+        }
+        "C09r" => {}
+        "C12" => {
+            plans.push(Plan {
+                name: "F-REQ (sequences of require / GetService / other statements, blank lines, comments, directives) x sort on/off",
+                cases: gen::f_req(if thorough { 4 } else { 3 }, thorough),
+                cfgs: cross(false, |b| vec![Cfg { sort: true, ..b }, b, Cfg { sort: true, le: 1, ..b }]),
+                widths: if thorough { Widths::Classes } else { Widths::Wide },
+                ranges: Ranges::None,
+                oracles: O_SORT | O_CENSUS | O_PARSE,
                 u_cap: 400,
             });
         }
